@@ -191,13 +191,7 @@ Theorem C08_exposed : forall (r : role) (part : bytes) (cfg : config) (x : ctx),
                    | ResMsg (ROk (MClose (Some (_, reason)))) => valid_utf8 reason
                    | _ => True
                    end) (fst (fst (run_ops x ops w))).
-Proof.
-  intros r part cfg x Hx ops w.
-  destruct (run_ops x ops w) as [[rs x'] w'] eqn:E.
-  destruct (run_ops_exposed ops x w rs x' w' (ctx_new_wf _ _ _ _ Hx) E) as [_ F].
-  cbn [fst]. revert F. apply Forall_impl. intros [o n] H. cbn [fst] in *.
-  destruct o as [[m|e|s|]|u|b]; try exact I. destruct m as [t|t|t|t|[[c reason]|]|g]; try exact I; exact H.
-Qed.
+Proof. exact run_ops_exposed_new. Qed.
 
 Example C08_exposed_nonvacuous :
   exists x, ctx_new Server [] ex_cfg = Some x /\
